@@ -38,6 +38,8 @@ CLAIMED = {
          "All patterns of <=2 (quick) / <=3 (thorough) symbols over 19 pattern symbols (literals, regex metacharacters, *, ?, the three escapes, /) are matched against all 1464 paths of <=3 symbols over 11 path symbols and compared with a 10-line reference matcher; generated copyright files (1-6 Files paragraphs, patterns on one or several lines, inline and stand-alone licences in any order) are queried with 20 paths each and find_files / find_license_for_file / iter_files / iter_licenses of both readers compared with the model; six kinds of text not starting with a Format field must be refused by all three readers."),
  "C16": ("reference-model oracle on derived conversions: a harness-local struct spanning every field shape of the macro plus all 12 shipped deriving structs (field tables), both paragraph back-ends; round trip, key order, update_paragraph on prior paragraphs with foreign fields/comments/stale fields, error probes",
          "For generated values of the 11-field test struct (mandatory/optional x default/renamed key x default/custom codec over String, integers, bool, list, enum) and generated valid paragraphs of every shipped deriving struct: from_paragraph(to_paragraph(x)) equals x through lossy and lossless paragraphs, items are identical for both back-ends and in declaration order with absent options omitted, update_paragraph reads back as the value, removes absent options and leaves foreign fields and comment lines byte-identical; every field of every struct is probed missing and (where its type can refuse) invalid, and the error must name the field."),
+ "C20": ("print/reparse stability and differential oracle against the lossless reader over documents of 9 typed kinds generated from field tables; structurally invalid variants must be rejected",
+         "Documents of each lossy typed kind (control file, copyright file, apt Release/Sources/Packages stanza, buildinfo, removal record, DEP-3 header incl. From/Subject spelling, APT sources list) are generated from field tables with optional fields, multi-line values, comments, several paragraphs in any permitted order; the value must re-parse from its printed form to equal paragraphs and print identically, every known field must equal what deb822_lossless::Deb822 shows for the paragraph in the same role, and documents with no/two source paragraphs, a paragraph of neither kind, no header/Format or a missing mandatory field must be refused."),
 }
 TODO = {}
 props = [json.loads(l) for l in open("/verif/properties.jsonl")]
